@@ -32,17 +32,42 @@ func (w *World) checkNamespaceInheritance(P string, sf *storeFacts, pullers []*s
 		if len(fn.Params) == 0 {
 			return
 		}
-		if pt, ok := fn.Params[0].Type().(*types.Pointer); !ok || !types.Identical(pt.Elem(), sf.T) {
+		// the element: the function's first parameter, or - for a method of a builder object that keeps the current
+		// cursor in a field - every read of that field (the method must not store into it)
+		isE := func(v ssa.Value) bool { return false }
+		if pt, ok := fn.Params[0].Type().(*types.Pointer); ok && types.Identical(pt.Elem(), sf.T) {
+			E0 := ssa.Value(fn.Params[0])
+			isE = func(v ssa.Value) bool { return v == E0 }
+		} else if cf, okB := builderCursorField(fn, sf); okB {
+			stored := false
+			allInstrs(fn, func(in ssa.Instruction) {
+				if st, ok := in.(*ssa.Store); ok {
+					if fa, ok := st.Addr.(*ssa.FieldAddr); ok && fa.X == ssa.Value(fn.Params[0]) && fa.Field == cf {
+						stored = true
+					}
+				}
+			})
+			if stored {
+				return
+			}
+			isE = func(v ssa.Value) bool {
+				ld, ok := v.(*ssa.UnOp)
+				if !ok || ld.Op != token.MUL {
+					return false
+				}
+				fa, ok := ld.X.(*ssa.FieldAddr)
+				return ok && fa.X == ssa.Value(fn.Params[0]) && fa.Field == cf
+			}
+		} else {
 			return
 		}
-		E := ssa.Value(fn.Params[0])
 		allInstrs(fn, func(in ssa.Instruction) {
 			c, ok := in.(*ssa.Call)
 			if !ok {
 				return
 			}
 			ci, isCtor := sf.Ctors[staticCallee(c)]
-			if !isCtor || c.Call.Args[ci.ParentParam] != E {
+			if !isCtor || !isE(c.Call.Args[ci.ParentParam]) {
 				return
 			}
 			// node argument derives from an element of E.parent.namespaces
@@ -61,7 +86,7 @@ func (w *World) checkNamespaceInheritance(P string, sf *storeFacts, pullers []*s
 					return false
 				}
 				pfa, ok := ol.X.(*ssa.FieldAddr)
-				return ok && sf.roleOf(pfa.Field) == "parent" && pfa.X == E
+				return ok && sf.roleOf(pfa.Field) == "parent" && isE(pfa.X)
 			})
 			if !fromParentList {
 				return
@@ -154,7 +179,7 @@ func (w *World) checkNamespaceInheritance(P string, sf *storeFacts, pullers []*s
 					return
 				}
 				fa, ok := st.Addr.(*ssa.FieldAddr)
-				if !ok || fa.X != E || sf.roleOf(fa.Field) != "namespaces" {
+				if !ok || !isE(fa.X) || sf.roleOf(fa.Field) != "namespaces" {
 					return
 				}
 				if sliceContains(st.Val, func(v ssa.Value) bool { return v == ssa.Value(c) }) {
@@ -204,15 +229,34 @@ func (w *World) checkNamespaceInheritance(P string, sf *storeFacts, pullers []*s
 			}
 		}
 		callsH := false
-		allInstrs(fn, func(in ssa.Instruction) {
-			if c, ok := in.(*ssa.Call); ok && staticCallee(c) == H {
-				callsH = true
-			}
-		})
+		for g := range staticReach(fn, func(x *ssa.Function) bool { return fnPkgKey(x) == "store" }) {
+			allInstrs(g, func(in ssa.Instruction) {
+				if c, ok := in.(*ssa.Call); ok && staticCallee(c) == H {
+					callsH = true
+				}
+			})
+		}
 		if !callsH {
 			continue
 		}
 		if flag == nil || cur == nil {
+			// the state may live in a builder object (cursor, counter and flag as fields): simulated with the flag
+			// field followed through its reads and writes
+			if bt, cf, ff, okB := builderType(fn, sf); okB {
+				for _, k := range []string{"end", "namespace", "attribute", "element", "other"} {
+					for _, fv := range []bool{false, true} {
+						bo := w.simulateBuilderIteration(fn, pull, H, sf, bt, cf, ff, k, fv)
+						construct := fmt.Sprintf("event loop of %s: %s event, namespaces %s", fn.Name(), k, map[bool]string{true: "already inherited", false: "not yet inherited"}[fv])
+						if bo.und != "" {
+							w.undecided(P, "R10.9", construct, pull.Pos(), bo.und)
+							continue
+						}
+						ok, why := inheritanceVerdict(k, fv, bo.h, bo.first, bo.hArgOK, bo.hTwice, bo.nextFlag)
+						w.check(P, "R10.9", construct, pull.Pos(), ok, orElse(why, "inherits exactly when required; flag afterwards "+bo.nextFlag))
+					}
+				}
+				continue
+			}
 			w.undecided(P, "R10.9", "event loop of "+fn.Name(), pull.Pos(), "the loop that pulls events has no boolean loop variable recording whether the current element has inherited its namespaces: the once-per-element discipline cannot be followed")
 			continue
 		}
@@ -436,35 +480,7 @@ func (w *World) checkNamespaceInheritance(P string, sf *storeFacts, pullers []*s
 					w.undecided(P, "R10.9", construct, pull.Pos(), o.und)
 					continue
 				}
-				ok, why := true, ""
-				wantFlag := "true"
-				if k == "element" {
-					wantFlag = "false"
-				}
-				switch {
-				case !fv && k == "namespace":
-					wantFlag = "false"
-					if o.h >= 0 {
-						ok, why = false, "the parent's namespaces are inherited while the element's own declarations are still arriving (a later declaration of the same prefix then duplicates it)"
-					}
-				case !fv:
-					if o.h < 0 {
-						ok, why = false, "the element's first "+k+" event is processed without inheriting the parent's namespaces: the element (for an end event: an element without attributes and children) has only its own declarations"
-					} else if o.first >= 0 && o.first < o.h {
-						ok, why = false, "something of the event is processed before the namespaces are inherited (positions: namespace nodes must precede attributes and children; after an end event the cursor is already the parent)"
-					} else if !o.hArgOK {
-						ok, why = false, "the inheriting function is not given the current cursor"
-					} else if o.hTwice {
-						ok, why = false, "namespaces are inherited twice"
-					}
-				default:
-					if o.h >= 0 {
-						ok, why = false, "namespaces are inherited again for an element that already has them (every inherited node is duplicated)"
-					}
-				}
-				if ok && o.nextFlag != wantFlag {
-					ok, why = false, fmt.Sprintf("after the iteration the flag is %s, required %s (a new element has not inherited yet; after anything else the current element has)", o.nextFlag, wantFlag)
-				}
+				ok, why := inheritanceVerdict(k, fv, o.h, o.first, o.hArgOK, o.hTwice, o.nextFlag)
 				w.check(P, "R10.9", construct, pull.Pos(), ok, orElse(why, "inherits exactly when required; flag afterwards "+o.nextFlag))
 			}
 		}
@@ -744,4 +760,64 @@ func evalCalleeRaw(call *ssa.Call, fn *ssa.Function, idx int, callerEval func(ss
 		}
 	}
 	return false, false
+}
+
+// builderCursorField: fn is a method of a struct type of package store (not the cursor type itself) that has a field of
+// type pointer-to-cursor: the builder object of the tree construction; returns the index of that field.
+func builderCursorField(fn *ssa.Function, sf *storeFacts) (int, bool) {
+	if fn == nil || len(fn.Params) == 0 {
+		return 0, false
+	}
+	pt, ok := fn.Params[0].Type().(*types.Pointer)
+	if !ok {
+		return 0, false
+	}
+	n, ok := types.Unalias(pt.Elem()).(*types.Named)
+	if !ok || types.Identical(n, sf.T) {
+		return 0, false
+	}
+	st, ok := n.Underlying().(*types.Struct)
+	if !ok {
+		return 0, false
+	}
+	for i := 0; i < st.NumFields(); i++ {
+		if fp, ok := st.Field(i).Type().(*types.Pointer); ok && types.Identical(fp.Elem(), sf.T) {
+			return i, true
+		}
+	}
+	return 0, false
+}
+
+// inheritanceVerdict judges the trace of one simulated iteration.
+func inheritanceVerdict(k string, fv bool, h, first int, hArgOK, hTwice bool, nextFlag string) (bool, string) {
+	ok, why := true, ""
+	wantFlag := "true"
+	if k == "element" {
+		wantFlag = "false"
+	}
+	switch {
+	case !fv && k == "namespace":
+		wantFlag = "false"
+		if h >= 0 {
+			ok, why = false, "the parent's namespaces are inherited while the element's own declarations are still arriving (a later declaration of the same prefix then duplicates it)"
+		}
+	case !fv:
+		if h < 0 {
+			ok, why = false, "the element's first "+k+" event is processed without inheriting the parent's namespaces: the element (for an end event: an element without attributes and children) has only its own declarations"
+		} else if first >= 0 && first < h {
+			ok, why = false, "something of the event is processed before the namespaces are inherited (positions: namespace nodes must precede attributes and children; after an end event the cursor is already the parent)"
+		} else if !hArgOK {
+			ok, why = false, "the inheriting function is not given the current cursor"
+		} else if hTwice {
+			ok, why = false, "namespaces are inherited twice"
+		}
+	default:
+		if h >= 0 {
+			ok, why = false, "namespaces are inherited again for an element that already has them (every inherited node is duplicated)"
+		}
+	}
+	if ok && nextFlag != wantFlag {
+		ok, why = false, fmt.Sprintf("after the iteration the flag is %s, required %s (a new element has not inherited yet; after anything else the current element has)", nextFlag, wantFlag)
+	}
+	return ok, why
 }
